@@ -1,8 +1,10 @@
 package main
 
 import (
+	"fmt"
 	"time"
 
+	"go.flow.arcalot.io/engine/internal/verif/env"
 	"go.flow.arcalot.io/engine/internal/verif/vrt"
 )
 
@@ -14,6 +16,7 @@ type exploreOpts struct {
 	mapMenu  bool
 	race     bool
 	maxExecs int
+	cancelAnywhere bool // the caller's cancel may be placed at any scheduling point (one environment deviation)
 }
 
 var menuTSE = vrt.MenuOf(vrt.KPreempt, vrt.KSwitch, vrt.KSelect, vrt.KEnv)
@@ -32,8 +35,16 @@ func scenarioUnit(s *Scenario, opt exploreOpts, oracles ...Oracle) *Unit {
 		}
 		var obs Obs
 		body := runBody(s, &obs, opt.cancelMS)
+		var hook func()
+		if opt.cancelAnywhere {
+			hook = func() {
+				if obs.cancelFn != nil && !obs.Cancelled && !obs.Returned && vrt.Choose("harness/cancel-here", 2) == 1 {
+					obs.cancelFn()
+				}
+			}
+		}
 		cfg := vrt.ExploreCfg{
-			Exec:     vrt.Config{Stalls: opt.stalls, StallMenu: len(opt.stalls) > 0, MapMenu: opt.mapMenu || opt.menu[vrt.KMap], Race: opt.race},
+			Exec:     vrt.Config{Stalls: opt.stalls, StallMenu: len(opt.stalls) > 0, MapMenu: opt.mapMenu || opt.menu[vrt.KMap], Race: opt.race, PointHook: hook},
 			Bound:    opt.bound,
 			Menu:     opt.menu,
 			Deadline: deadline,
@@ -129,6 +140,10 @@ func init() {
 			for _, s := range runScenarios(tier, true) {
 				us = append(us, scenarioUnit(s, exploreOpts{bound: tierBound(tier, 1, 2), menu: menuTSE, cancelMS: -1}, oracleC01))
 			}
+			// outputs fed by more than 20 steps
+			for _, s := range wideScenarios(tier) {
+				us = append(us, scenarioUnit(s, exploreOpts{bound: tierBound(tier, 0, 1), menu: menuTSE, cancelMS: -1}, oracleC01, oracleC03))
+			}
 			return us
 		}})
 	register(&PropCheck{ID: "C03", Level: "model_checking",
@@ -173,6 +188,15 @@ func init() {
 			for _, s := range runScenarios(tier, true) {
 				us = append(us, scenarioUnit(s, exploreOpts{bound: tierBound(tier, 1, 2), menu: menuTSE, cancelMS: -1}, oracleC05))
 			}
+			// the same oracle at every cancellation point
+			for _, s := range buildScenarios(cancelPrograms(), altsCancel, tierBound(tier, 30, 120)) {
+				s.Ref = evalProgram(s.Prog, s.Script, s.Input)
+				s.Name += "/cancel-anywhere"
+				us = append(us, scenarioUnit(s, exploreOpts{bound: tierBound(tier, 1, 2), menu: menuTSE, cancelMS: -1, cancelAnywhere: true}, oracleC05))
+				s2 := *s
+				s2.Name = s.Name + "/cancel@7ms"
+				us = append(us, scenarioUnit(&s2, exploreOpts{bound: tierBound(tier, 1, 2), menu: menuTSE, cancelMS: 7}, oracleC05))
+			}
 			return us
 		}})
 	register(&PropCheck{ID: "C08", Level: "model_checking",
@@ -183,6 +207,24 @@ func init() {
 			var us []*Unit
 			for _, s := range runScenarios(tier, true) {
 				us = append(us, scenarioUnit(s, exploreOpts{bound: tierBound(tier, 1, 2), menu: menuTSE, cancelMS: -1}, oracleC08))
+			}
+			return us
+		}})
+	register(&PropCheck{ID: "C06", Level: "model_checking",
+		Rule:        "the caller's cancel is placed at every scheduling point of the default schedule (one environment deviation) and at fixed virtual instants, combined with thread/select deviations up to the bound; return time, signal/close ledger and result are checked on every execution",
+		Assumptions: commonAssumptions,
+		Budget:      budget(170*time.Second, 25*time.Minute),
+		Units: func(tier string) []*Unit {
+			var us []*Unit
+			scs := buildScenarios(cancelPrograms(), altsCancel, tierBound(tier, 30, 120))
+			for _, s := range scs {
+				s.Ref = evalProgram(s.Prog, s.Script, s.Input)
+				us = append(us, scenarioUnit(s, exploreOpts{bound: tierBound(tier, 1, 2), menu: menuTSE, cancelMS: -1, cancelAnywhere: true}, oracleC06, oracleC03cancel, oracleC05))
+				for _, at := range []int64{7, 25} {
+					s2 := *s
+					s2.Name = fmt.Sprintf("%s/cancel@%dms", s.Name, at)
+					us = append(us, scenarioUnit(&s2, exploreOpts{bound: tierBound(tier, 1, 2), menu: menuTSE, cancelMS: at}, oracleC06, oracleC03cancel, oracleC05))
+				}
 			}
 			return us
 		}})
@@ -197,4 +239,57 @@ func init() {
 			}
 			return us
 		}})
+}
+
+// wideScenarios: one output fed by 22 / 25 steps under uniform and single-deviation outcome vectors.
+func wideScenarios(tier string) []*Scenario {
+	var out []*Scenario
+	sizes := []int{22}
+	if tier == "thorough" {
+		sizes = []int{22, 25}
+	}
+	for _, n := range sizes {
+		p := progFanInN(n)
+		ids := pluginIDs(p)
+		mk := func(name string, f func(i int) env.StepScript) {
+			sc := &env.Script{Steps: map[string]*env.StepScript{}}
+			for i, id := range ids {
+				st := f(i)
+				sc.Steps[id] = &st
+			}
+			s := &Scenario{Class: p.Name, Prog: p, Script: sc, Input: map[string]any{"n": 5}}
+			s.Name = p.Name + "/" + name
+			s.Ref = evalProgram(p, sc, s.Input)
+			out = append(out, s)
+		}
+		ok := env.StepScript{}
+		mk("all-ok", func(int) env.StepScript { return ok })
+		mk("all-error", func(int) env.StepScript { return env.StepScript{Run: env.RunErrorOut} })
+		mk("all-crash", func(int) env.StepScript { return env.StepScript{Run: env.RunCrash} })
+		mk("all-nodeploy", func(int) env.StepScript { return env.StepScript{Deploy: env.DeployFail} })
+		mk("first-error", func(i int) env.StepScript {
+			if i == 0 {
+				return env.StepScript{Run: env.RunErrorOut}
+			}
+			return ok
+		})
+		mk("last-crash", func(i int) env.StepScript {
+			if i == n-1 {
+				return env.StepScript{Run: env.RunCrash}
+			}
+			return ok
+		})
+		mk("mixed", func(i int) env.StepScript {
+			switch i % 4 {
+			case 1:
+				return env.StepScript{Run: env.RunErrorOut}
+			case 2:
+				return env.StepScript{Run: env.RunCrash}
+			case 3:
+				return env.StepScript{Deploy: env.DeployFail}
+			}
+			return ok
+		})
+	}
+	return out
 }
